@@ -133,6 +133,63 @@ def coq_str(t):
     return '"' + t.replace('"', '""') + '"'
 
 
+def _func_body(src, name):
+    m = re.search(r"^func \(k Keeper\) %s\(.*?\) .*?\{\n(.*?)^\}\n" % name, src, flags=re.S | re.M)
+    return m.group(1) if m else None
+
+
+def lockup_shape():
+    """which duration expression keys the read, the write and the initial literal of the duration -> amount map that
+    InitializeAllLocks / InitializeAllSyntheticLocks accumulate before writing the accumulation store (identifier-agnostic:
+    the locals are resolved to 'the range variable' / 'the lock fetched by GetLockByID'). Anything unexpected -> KUnknown,
+    which breaks the shape lemma of C19/LockupGenesis.v (never raises: every property's check runs every translator)."""
+    vals = {}
+    try:
+        src = open(os.path.join(common.REPO, "x/lockup/keeper/lock.go")).read()
+        for fn, prefix in (("InitializeAllLocks", "locks"), ("InitializeAllSyntheticLocks", "synth")):
+            body = _func_body(src, fn) or ""
+            rng = re.search(r"for \w+, (\w+) := range (\w+) \{", body)
+            rangevar = rng.group(1) if rng else None
+            fetched = re.search(r"(\w+), err := k\.GetLockByID\(ctx, %s\.UnderlyingLockId\)" % re.escape(rangevar or "?"), body)
+            lockvar = fetched.group(1) if fetched else None
+
+            def classify(ident):
+                if fn == "InitializeAllLocks":
+                    return "KUnder" if ident == rangevar else "KUnknown"
+                if ident == rangevar:
+                    return "KSynth"
+                if ident == lockvar:
+                    return "KUnder"
+                return "KUnknown"
+            reads = re.findall(r"if \w+, ok := (\w+)\[(\w+)\.Duration\]; ok \{", body)
+            writes = re.findall(r"^\s*(\w+)\[(\w+)\.Duration\] = (\w+)\s*$", body, flags=re.M)
+            inits = re.findall(r"= map\[time\.Duration\]osmomath\.Int\{(\w+)\.Duration: (\w+)\.Amount\}", body)
+            denomkey = re.findall(r"if \w+, ok := accumulationStoreEntries\[(\w+)\.(\w+)\]; ok \{", body)
+            incr = re.findall(r"\.Increase\(accumulationKey\((\w+)\), (\w+)\)", body) if fn == "InitializeAllSyntheticLocks" else [("d", "amt")]
+            ok = len(reads) == 1 and len(writes) == 1 and len(inits) == 1 and len(denomkey) == 1 and len(incr) == 1
+            vals[prefix + "_read_key"] = classify(reads[0][1]) if ok else "KUnknown"
+            vals[prefix + "_write_key"] = classify(writes[0][1]) if ok else "KUnknown"
+            vals[prefix + "_init_key"] = classify(inits[0][0]) if ok else "KUnknown"
+            want_denom = ("coin", "Denom") if fn == "InitializeAllLocks" else (rangevar, "SynthDenom")
+            vals[prefix + "_denom_ok"] = "true" if ok and denomkey[0] == want_denom else "false"
+            # the accumulated sum is the current amount plus the amount found under the read key
+            adds = re.search(r"newAmt := coin\.Amount\s*\n\s*if curAmt, ok := \w+\[\w+\.Duration\]; ok \{\s*\n\s*newAmt = newAmt\.Add\(curAmt\)", body)
+            vals[prefix + "_adds_found"] = "true" if adds else "false"
+    except Exception:  # noqa
+        pass
+    names = ["locks_read_key", "locks_write_key", "locks_init_key", "synth_read_key", "synth_write_key", "synth_init_key"]
+    flags = ["locks_denom_ok", "locks_adds_found", "synth_denom_ok", "synth_adds_found"]
+    txt = ("(* GENERATED by props/c19.py translate() from /repo/x/lockup/keeper/lock.go - do not edit. The duration expression that keys\n"
+           "   the read / the write / the initial literal of the per-denom duration -> amount map in InitializeAllLocks and\n"
+           "   InitializeAllSyntheticLocks: KUnder = Duration of the (underlying) period lock, KSynth = Duration of the synthetic lock. *)\n"
+           "From Osmo Require Import C19.LockupShapeTypes.\n\n")
+    for n in names:
+        txt += "Definition %s : kexpr := %s.\n" % (n, vals.get(n, "KUnknown"))
+    for n in flags:
+        txt += "Definition %s : bool := %s.\n" % (n, vals.get(n, "false"))
+    return txt
+
+
 def translate():
     """never raises (every property's check runs every translator): a failed scan yields scan_ok = false, which only
     breaks C19's own classification lemma"""
@@ -151,7 +208,7 @@ def translate():
             "   (file of the declaration, Type.field or variable, hash of the normalised list of writing statements). *)\n"
             "From Coq Require Import String List.\nImport ListNotations.\nFrom Osmo Require Import C19.SiteTypes.\nOpen Scope string_scope.\n\n"
             "Definition caches : list csite := [\n%s\n].\n" % ";\n".join(crow))
-    return {"Gen/C19_sites.v": txt, "Gen/C19_caches.v": ctxt}
+    return {"Gen/C19_sites.v": txt, "Gen/C19_caches.v": ctxt, "Gen/C19_lockup_shape.v": lockup_shape()}
 
 
 # ---------------------------------------------------------------------------------------------
@@ -901,8 +958,27 @@ def coq_locks(js):
     return "[" + "; ".join("(%d, %d)" % r for r in recs) + "]", int(js.get("last_lock_id", "0"))
 
 
+def coq_lockup_case(lockup_js, probes):
+    """the exported lockup genesis as a Coq lgenesis (denoms numbered) + the (denom, duration, value) probes the real re-imported chain answered"""
+    ids = {}
+
+    def dn(x):
+        return ids.setdefault(x, len(ids) + 1)
+    locks = "[" + "; ".join("mkL %d %d [%s]" % (int(l["ID"]), dur_ns(l["duration"]), "; ".join("(%d, %d)" % (dn(c["denom"]), int(c["amount"])) for c in l["coins"]))
+                            for l in lockup_js.get("locks", [])) + "]"
+    synth = "[" + "; ".join("mkSL %d %d %d" % (int(sl["underlying_lock_id"]), dn(sl["synth_denom"]), dur_ns(sl["duration"]))
+                            for sl in lockup_js.get("synthetic_locks", [])) + "]"
+    ps = []
+    for k, v in sorted(probes.items()):
+        parts = k.split("|")
+        if parts[0] == "lockup_accumulation" and re.match(r"^-?\d+$", v):
+            ps.append("(%d, %s, %s)" % (dn(parts[1]), common.zlit(int(parts[2])), common.zlit(int(v))))
+    return "mkLCase (mkG %s %s) [%s]" % (locks, synth, "; ".join(ps)), len(ps)
+
+
 def model_correspondence(pairs, workloads, out):
     ecases, kcases, owners = [], [], []
+    lcases, nprobes = [], 0
     for w, (oa, ob) in zip(workloads, pairs):
         for e in (oa.get("exports") or []) if not oa.get("err") else []:
             if e.get("err") or not e.get("raw_orig"):
@@ -912,6 +988,9 @@ def model_correspondence(pairs, workloads, out):
             l1, n1 = coq_locks(ro["lockup"])
             l2, n2 = coq_locks(rr["lockup"])
             kcases.append("mkKCase %s %d %s %d" % (l1, n1, l2, n2))
+            lc, npr = coq_lockup_case(ro["lockup"], e.get("probe_reimp") or {})
+            lcases.append(lc)
+            nprobes += npr
             owners.append((w, e["at"]))
     if not ecases:
         return 0
@@ -919,10 +998,12 @@ def model_correspondence(pairs, workloads, out):
          "From Osmo Require Import Base.Obs C17.Model C19.Genesis C19.Corr.\nOpen Scope Z_scope.\n"
          "Definition ecases : list ecase := [\n  %s ].\nDefinition kcases : list kcase := [\n  %s ].\n"
          "Definition ME := Eval vm_compute in mismatches ecase_ok ecases.\nPrint ME.\n"
-         "Definition MK := Eval vm_compute in mismatches kcase_ok kcases.\nPrint MK.\n" % (";\n  ".join(ecases), ";\n  ".join(kcases)))
+         "Definition MK := Eval vm_compute in mismatches kcase_ok kcases.\nPrint MK.\n" % (";\n  ".join(ecases), ";\n  ".join(kcases))
+         + "From Osmo Require Import C19.LockupGenesis.\nDefinition lcases : list lcase := [\n  %s ].\n"
+           "Definition ML := Eval vm_compute in mismatches lcase_ok lcases.\nPrint ML.\n" % ";\n  ".join(lcases))
     rc, o = common.coq_eval("C19_genesis_%d" % os.getpid(), v)
-    me, mk = common.parse_nat_list(o, "ME"), common.parse_nat_list(o, "MK")
-    if rc != 0 or me is None or mk is None:
+    me, mk, ml = common.parse_nat_list(o, "ME"), common.parse_nat_list(o, "MK"), common.parse_nat_list(o, "ML")
+    if rc != 0 or me is None or mk is None or ml is None:
         out.mismatches.append({"what": "model evaluation failed: " + o[-600:], "case": None})
         return 0
     for idx in me:
@@ -931,7 +1012,12 @@ def model_correspondence(pairs, workloads, out):
     for idx in mk:
         w, at = owners[idx]
         out.mismatches.append({"what": "lockup locks / last_lock_id after the round trip differ from the keyed-records model (export after block index %d)" % at, "case": strip_case(w)})
-    return len(ecases) + len(kcases)
+    for idx in ml:
+        w, at = owners[idx]
+        out.mismatches.append({"what": "lockup InitGenesis: the accumulation values of the real re-imported chain differ from the model import_lockup evaluated on the "
+                                       "exported locks / synthetic locks (export after block index %d)" % at, "case": strip_case(w)})
+    out.nprobes = nprobes
+    return len(ecases) + len(kcases) + len(lcases)
 
 
 def site_correspondence(out):
@@ -941,6 +1027,15 @@ def site_correspondence(out):
     if err:
         out.mismatches.append({"what": "map-iteration scan failed: " + err[:600], "case": None})
         return sites
+    shape = lockup_shape()
+    want = {"locks_read_key": "KUnder", "locks_write_key": "KUnder", "locks_init_key": "KUnder", "synth_read_key": "KSynth",
+            "synth_write_key": "KSynth", "synth_init_key": "KSynth", "locks_denom_ok": "true", "locks_adds_found": "true",
+            "synth_denom_ok": "true", "synth_adds_found": "true"}
+    got = dict(re.findall(r"Definition (\w+) : \w+ := (\w+)\.", shape))
+    bad = sorted("%s = %s (model assumes %s)" % (k, got.get(k), v) for k, v in want.items() if got.get(k) != v)
+    if bad:
+        out.mismatches.append({"what": "x/lockup/keeper/lock.go InitializeAllLocks / InitializeAllSyntheticLocks no longer key the duration -> amount map as the "
+                                       "model of C19/LockupGenesis.v assumes: " + "; ".join(bad), "case": None})
     st = scanner_selftest()
     if st:
         out.mismatches.append({"what": st, "case": None})
@@ -1081,7 +1176,8 @@ def correspond(tier, seed, model_ok):
         cls[x["class"]] = cls.get(x["class"], 0) + 1
     out.distribution["map_iteration_sites"] = cls
     out.distribution["in_memory_state_sites"] = getattr(out, "ncaches", 0)
-    out.distribution["model_import_cases (epochs + keyed records)"] = nmodel
+    out.distribution["model_import_cases (epochs + keyed records + lockup accumulation)"] = nmodel
+    out.distribution["lockup_accumulation_probes_checked_against_model"] = getattr(out, "nprobes", 0)
     out.notes = sorted(out.xnotes) + ["raw-state differences canonicalised away (no observable effect found, see KV_KNOWN): " + ", ".join(sorted(out.benign))]
     return out
 
@@ -1114,7 +1210,8 @@ def selftest(pairs, workloads):
     import copy
     w = next(x for x, (oa, ob) in zip(workloads, pairs) if (oa.get("exports") and not oa.get("err")))
     oa, ob = next((oa, ob) for x, (oa, ob) in zip(workloads, pairs) if x is w)
-    assert not [v for v in cmp_pair(w, oa, ob) if v["rec"].get("id") == "unknown" or v["rec"]["kind"] == "nondeterminism" and v["rec"]["what"] != "tx_log"]
+    assert not [v for v in cmp_pair(w, oa, ob) if v["rec"].get("id") == "unknown" or
+                (v["rec"]["kind"] == "nondeterminism" and v["rec"]["what"] != "tx_log" and not v["rec"].get("cause"))]
     res = {}
 
     def kinds(a, b):
@@ -1150,6 +1247,13 @@ def selftest(pairs, workloads):
     js["epochs"][0]["current_epoch"] = str(int(js["epochs"][0]["current_epoch"]) + 1)
     model_correspondence([(a, ob)], [w], o2)
     res["model_epochs"] = len(o2.mismatches) == 1
+    o4 = Outcome()
+    a = copy.deepcopy(oa)
+    pk = next((k for k in sorted(a["exports"][0].get("probe_reimp") or {}) if k.startswith("lockup_accumulation|") and "/super" in k), None)
+    if pk:
+        a["exports"][0]["probe_reimp"][pk] = str(int(a["exports"][0]["probe_reimp"][pk]) + 1)
+        model_correspondence([(a, ob)], [w], o4)
+        res["model_lockup_accumulation"] = len(o4.mismatches) == 1
     o3 = Outcome()
     a = copy.deepcopy(oa)
     a["exports"][0]["raw_reimp"]["lockup"]["last_lock_id"] = "99999"
